@@ -207,11 +207,15 @@ def run_protocol(ctx, binary, drv):
         # harness error (the scenarios after it are dropped and counted), never a violation
         return ctx.go_run(binary, "TestVerifC06Proto", ops, timeout=max(120, len(ops) // 4))
 
-    def pline(quiet, labels, mp=0):
-        return f"prun quiet={int(quiet)} map={mp} | " + " ".join(labels)
+    def pline(quiet, labels, mp=0, faults=""):
+        return f"prun quiet={int(quiet)} map={mp}{faults} | " + " ".join(labels)
 
     def map_of(op):
         return int(fields(op.partition("|")[0]).get("map", 0))
+
+    def faults_of(op):
+        f = fields(op.partition("|")[0])
+        return "".join(f" {k}=1" for k in ("mrfail", "prfail") if f.get(k) == "1")
 
     def fields(line):
         return dict(w.split("=", 1) for w in line.split() if "=" in w)
@@ -254,8 +258,12 @@ def run_protocol(ctx, binary, drv):
             # subscription options: regular presence alone, or combined with a map client / user presence
             # channel (then Client.removeMapPresence is the routine that removes the regular entry)
             mp = ctx.rng.choice([0, 0, 1, 2])
+            # fault injection: MapBroker.Remove fails (nothing removed there); RemovePresence reports an
+            # error after the removal landed.  Neither may leave the regular presence entry behind.
+            faults = (" mrfail=1" if mp and ctx.rng.random() < 0.5 else "") + \
+                (" prfail=1" if ctx.rng.random() < 0.25 else "")
             run_ops.append(with_exp(pline("quiet=1" in g.split("|")[0],
-                                          [l for l in labs[len("labels="):].split(",") if l], mp), rest))
+                                          [l for l in labs[len("labels="):].split(",") if l], mp, faults), rest))
             expected.append(core(rest))
     out = impl(run_ops)
     if ctx.last_go_crash:
@@ -274,7 +282,10 @@ def run_protocol(ctx, binary, drv):
             labels = labels[:int(fields(o)["diverged"]) + 1]
         quiet = "quiet=1" in op.partition("|")[0]
         mp = map_of(op)
+        faults = faults_of(op)
         ctx.count(f"proto:map={mp}")
+        for w in faults.split():
+            ctx.count("proto-fault:" + w)
         ctx.record(op, nontrivial=len(set(l[0] for l in labels)) >= 2)
         ctx.count("proto:quiet" if quiet else "proto:free")
         for l in labels:
@@ -283,7 +294,7 @@ def run_protocol(ctx, binary, drv):
         ctx.count("proto-oracle:" + (msg or "holds"))
         if msg is None:
             continue
-        cls = (msg, quiet, "T" in labels, "C" in labels, mp)
+        cls = (msg, quiet, "T" in labels, "C" in labels, mp, faults)
         seen[cls] = seen.get(cls, 0) + 1
         if seen[cls] > 1:
             continue
@@ -298,21 +309,21 @@ def run_protocol(ctx, binary, drv):
                 if not cands:
                     continue
                 budget -= 1
-                mo = model([pline(quiet, c, mp) for c in cands])
+                mo = model([pline(quiet, c, mp, faults) for c in cands])
                 hit = next((c for c, m in zip(cands, mo) if m.startswith("chan=") and
                             proto_oracle(m + " | info=ok stats=" + ("1/1" if "present=1" in m else "0/0")) == msg), None)
                 if hit is not None:
                     cur, progress = hit, True
                     break
-        sop = pline(quiet, cur, mp)
+        sop = pline(quiet, cur, mp, faults)
         sout = impl([sop])
         if not sout or proto_oracle(sout[0]) != msg:
-            cur, sop = labels, pline(quiet, labels, mp)
+            cur, sop = labels, pline(quiet, labels, mp, faults)
             sout = impl([sop])
             if not sout or proto_oracle(sout[0]) != msg:
                 sout = [o]
         sig = {"part": "proto", "violation": msg, "quiet": quiet, "tick": "T" in cur, "close": "C" in cur,
-               "map_presence": mp}
+               "map_presence": mp, "faults": faults.strip()}
         ctx.violation("property", f"protocol: {msg} at a settled point: {sout[0]}", signature=sig,
                       replay={"part": "proto", "ops": [sop], "impl": sout, "original_op": op})
     ctx.extra["proto_violation_classes_seen"] = {str(k): v for k, v in seen.items()}
